@@ -164,7 +164,7 @@ func rerun(h *H, vc VCase) VCase {
 }
 
 func validate(c *lib.Ctx, h *H, dir string) error {
-	n := c.Pick(1500, 40000)
+	n := c.Pick(1000, 40000)
 	rng := rand.New(rand.NewSource(c.Seed*7919 + 17))
 	cases := make([]VCase, 0, n)
 	// directed forms first: the confirmed defects and the documented examples
